@@ -910,6 +910,239 @@ static void do_camion(CMR* cmr)
   CMRchrmatFree(cmr, &M);
 }
 
+/* ---------- C12: k-sums ---------- */
+
+static size_t read_list(size_t* out, size_t cap)
+{
+  size_t k = nx();
+  for (size_t i = 0; i < k; ++i)
+  {
+    size_t v = nx();
+    if (i < cap)
+      out[i] = v;
+  }
+  return k;
+}
+
+static void o_list(size_t k, size_t* l)
+{
+  osz(k);
+  for (size_t i = 0; i < k; ++i)
+    osz(l[i]);
+}
+
+static CMR_ERROR ksum_compose(CMR* cmr, long long kind, int p, CMR_CHRMAT* A, CMR_CHRMAT* B, size_t nfsr, size_t* fsr,
+  size_t nfsc, size_t* fsc, size_t nssr, size_t* ssr, size_t nssc, size_t* ssc, CMR_CHRMAT** pres)
+{
+  if (kind == 2)
+    return CMRtwosumCompose(cmr, A, B, nfsr ? fsr : NULL, nfsc ? fsc : NULL, nssr ? ssr : NULL, nssc ? ssc : NULL, p, pres);
+  if (kind == 3)
+    return CMRdeltasumCompose(cmr, A, B, fsr, fsc, ssr, ssc, p, pres);
+  if (kind == 4)
+    return CMRysumCompose(cmr, A, B, fsr, fsc, ssr, ssc, p, pres);
+  return CMRthreesumCompose(cmr, A, B, fsr, fsc, ssr, ssc, p, pres);
+}
+
+/* case: kind p M1 M2 fsr fsc ssr ssc (length-prefixed)   record: the same + rc hasResult [csr] */
+static void do_kcompose(CMR* cmr)
+{
+  long long kind = nx(), p = nx();
+  CMR_CHRMAT* A = read_chrmat(cmr);
+  CMR_CHRMAT* B = read_chrmat(cmr);
+  size_t fsr[4], fsc[4], ssr[4], ssc[4];
+  size_t nfsr = read_list(fsr, 4), nfsc = read_list(fsc, 4), nssr = read_list(ssr, 4), nssc = read_list(ssc, 4);
+  CMR_CHRMAT* res = NULL;
+  CMR_ERROR rc = ksum_compose(cmr, kind, (int) p, A, B, nfsr, fsr, nfsc, fsc, nssr, ssr, nssc, ssc, &res);
+  rec_begin();
+  oi(kind); oi(p);
+  o_chr_dense(A);
+  o_chr_dense(B);
+  o_list(nfsr, fsr); o_list(nfsc, fsc); o_list(nssr, ssr); o_list(nssc, ssc);
+  oi(rc);
+  oi((!rc && res) ? 1 : 0);
+  if (!rc && res)
+    o_chr_csr(res);
+  rec_end();
+  if (res)
+    CMRchrmatFree(cmr, &res);
+  CMRchrmatFree(cmr, &A);
+  CMRchrmatFree(cmr, &B);
+}
+
+static void o_component(CMR_ERROR rc, CMR_CHRMAT* X, size_t* rowsOrigin, size_t* colsOrigin, size_t nsr, size_t* sr,
+  size_t nsc, size_t* sc)
+{
+  oi(rc);
+  if (rc || !X)
+  {
+    oi(0); oi(0); oi(0); oi(0); oi(0);
+    return;
+  }
+  oi(1);
+  o_chr_csr(X);
+  osz(X->numRows);
+  for (size_t i = 0; i < X->numRows; ++i)
+    osz(rowsOrigin[i]);
+  osz(X->numColumns);
+  for (size_t i = 0; i < X->numColumns; ++i)
+    osz(colsOrigin[i]);
+  o_list(nsr, sr);
+  o_list(nsc, sc);
+}
+
+/* case: kind p M rowpart(m values 0/1) colpart(n values 0/1)
+ * record: kind p M ok eps beta gamma | first component | second component | compose rc hasResult [csr] */
+static void do_kdecomp(CMR* cmr)
+{
+  long long kind = nx(), p = nx();
+  CMR_CHRMAT* M = read_chrmat(cmr);
+  size_t m = M->numRows, n = M->numColumns;
+  CMR_CHRMAT* Mt = NULL;
+  die_on(CMRchrmatTranspose(cmr, M, &Mt), "CMRchrmatTranspose");
+  CMR_SEPA* sepa = NULL;
+  die_on(CMRsepaCreate(cmr, m, n, &sepa), "CMRsepaCreate");
+  for (size_t r = 0; r < m; ++r)
+    sepa->rowsFlags[r] = nx() ? CMR_SEPA_SECOND : CMR_SEPA_FIRST;
+  for (size_t c = 0; c < n; ++c)
+    sepa->columnsFlags[c] = nx() ? CMR_SEPA_SECOND : CMR_SEPA_FIRST;
+  int ok = 1; /* 0: not a separation of the requested type, 1: decomposed, 2: refused by the epsilon / connecting-matrix search */
+  bool swapped = false;
+  CMR_SUBMAT* viol = NULL;
+  CMR_ERROR rc = CMRsepaFindBinaryRepresentatives(cmr, sepa, M, Mt, &swapped, p == 3 ? &viol : NULL);
+  if (rc || viol)
+    ok = 0;
+  if (viol)
+    CMRsubmatFree(cmr, &viol);
+  if (ok && p == 3 && sepa->type == CMR_SEPA_TYPE_TWO)
+  {
+    /* CMRsepaCheckTernary only implements the check for 2-separations; for 3-separations the generator supplies
+     * partitions whose GF(2) and GF(3) rank profiles agree */
+    bool isTernary = false;
+    rc = CMRsepaCheckTernary(cmr, sepa, M, &isTernary, NULL);
+    if (rc || !isTernary)
+      ok = 0;
+  }
+  if (ok)
+  {
+    if (kind == 2 && sepa->type != CMR_SEPA_TYPE_TWO)
+      ok = 0;
+    if ((kind == 3 || kind == 4) && sepa->type != CMR_SEPA_TYPE_THREE_DISTRIBUTED_RANKS)
+      ok = 0;
+    if (kind == 5 && sepa->type != CMR_SEPA_TYPE_THREE_CONCENTRATED_RANK)
+      ok = 0;
+  }
+  size_t cap = m + n + 8;
+  size_t* ro1 = malloc(cap * sizeof(size_t)); size_t* co1 = malloc(cap * sizeof(size_t));
+  size_t* ro2 = malloc(cap * sizeof(size_t)); size_t* co2 = malloc(cap * sizeof(size_t));
+  for (size_t i = 0; i < cap; ++i)
+    ro1[i] = co1[i] = ro2[i] = co2[i] = SIZE_MAX;
+  size_t fsr[4] = {0, 0, 0, 0}, fsc[4] = {0, 0, 0, 0}, ssr[4] = {0, 0, 0, 0}, ssc[4] = {0, 0, 0, 0};
+  size_t nfsr = 0, nfsc = 0, nssr = 0, nssc = 0;
+  char eps = 0, beta = 0, gamma = 0;
+  CMR_CHRMAT* X1 = NULL;
+  CMR_CHRMAT* X2 = NULL;
+  CMR_ERROR rc1 = CMR_OKAY, rc2 = CMR_OKAY;
+  if (ok)
+  {
+    if (kind == 2)
+    {
+      size_t a[1] = {SIZE_MAX}, b[1] = {SIZE_MAX}, c[1] = {SIZE_MAX}, d[1] = {SIZE_MAX};
+      rc1 = CMRtwosumDecomposeFirst(cmr, M, sepa, &X1, ro1, co1, NULL, NULL, a, b);
+      rc2 = CMRtwosumDecomposeSecond(cmr, M, sepa, &X2, ro2, co2, NULL, NULL, c, d);
+      if (a[0] != SIZE_MAX) { fsr[0] = a[0]; nfsr = 1; }
+      if (b[0] != SIZE_MAX) { fsc[0] = b[0]; nfsc = 1; }
+      if (c[0] != SIZE_MAX) { ssr[0] = c[0]; nssr = 1; }
+      if (d[0] != SIZE_MAX) { ssc[0] = d[0]; nssc = 1; }
+    }
+    else if (kind == 3)
+    {
+      rc1 = CMRdeltasumDecomposeEpsilon(cmr, M, Mt, sepa, &eps);
+      if (rc1)
+        ok = 2;
+      if (!rc1)
+      {
+        rc1 = CMRdeltasumDecomposeFirst(cmr, M, sepa, eps, &X1, ro1, co1, NULL, NULL, fsr, fsc);
+        rc2 = CMRdeltasumDecomposeSecond(cmr, M, sepa, eps, &X2, ro2, co2, NULL, NULL, ssr, ssc);
+      }
+      nfsr = 1; nfsc = 2; nssr = 1; nssc = 2;
+    }
+    else if (kind == 4)
+    {
+      rc1 = CMRysumDecomposeEpsilon(cmr, M, Mt, sepa, &eps);
+      if (rc1)
+        ok = 2;
+      if (!rc1)
+      {
+        rc1 = CMRysumDecomposeFirst(cmr, M, sepa, eps, &X1, ro1, co1, NULL, NULL, fsr, fsc);
+        rc2 = CMRysumDecomposeSecond(cmr, M, sepa, eps, &X2, ro2, co2, NULL, NULL, ssr, ssc);
+      }
+      nfsr = 2; nfsc = 1; nssr = 2; nssc = 1;
+    }
+    else
+    {
+      size_t sr[2] = {SIZE_MAX, SIZE_MAX}, sc[2] = {SIZE_MAX, SIZE_MAX};
+      rc1 = CMRthreesumDecomposeSearchConnecting(cmr, M, Mt, sepa, sr, sc, &gamma, &beta);
+      if (rc1)
+        ok = 2;
+      if (!rc1)
+      {
+        rc1 = CMRthreesumDecomposeFirst(cmr, M, sepa, sr, sc, beta, &X1, ro1, co1, NULL, NULL, fsr, fsc);
+        rc2 = CMRthreesumDecomposeSecond(cmr, M, sepa, sr, sc, gamma, &X2, ro2, co2, NULL, NULL, ssr, ssc);
+      }
+      nfsr = 2; nfsc = 3; nssr = 3; nssc = 2;
+    }
+  }
+  /* For Delta- and Y-sums the components are minors of M only if the connecting path also exists in the other part:
+   * ask the library for epsilon on the separation with the two parts exchanged. */
+  int both = 0;
+  if (ok == 1 && (kind == 3 || kind == 4))
+  {
+    CMR_SEPA* swappedSepa = NULL;
+    die_on(CMRsepaCreate(cmr, m, n, &swappedSepa), "CMRsepaCreate");
+    for (size_t r = 0; r < m; ++r)
+      swappedSepa->rowsFlags[r] = ((sepa->rowsFlags[r] & CMR_SEPA_MASK_CHILD) == CMR_SEPA_FIRST) ? CMR_SEPA_SECOND : CMR_SEPA_FIRST;
+    for (size_t c = 0; c < n; ++c)
+      swappedSepa->columnsFlags[c] = ((sepa->columnsFlags[c] & CMR_SEPA_MASK_CHILD) == CMR_SEPA_FIRST) ? CMR_SEPA_SECOND : CMR_SEPA_FIRST;
+    bool sw2 = false;
+    if (!CMRsepaFindBinaryRepresentatives(cmr, swappedSepa, M, Mt, &sw2, NULL)
+      && swappedSepa->type == CMR_SEPA_TYPE_THREE_DISTRIBUTED_RANKS)
+    {
+      char eps2 = 0;
+      CMR_ERROR rce = (kind == 3) ? CMRdeltasumDecomposeEpsilon(cmr, M, Mt, swappedSepa, &eps2)
+        : CMRysumDecomposeEpsilon(cmr, M, Mt, swappedSepa, &eps2);
+      if (!rce)
+        both = 1;
+    }
+    CMRsepaFree(cmr, &swappedSepa);
+  }
+  rec_begin();
+  oi(kind); oi(p);
+  o_chr_dense(M);
+  oi(ok);
+  oi(eps); oi(beta); oi(gamma); oi(both);
+  o_component(ok == 1 ? rc1 : 1, X1, ro1, co1, nfsr, fsr, nfsc, fsc);
+  o_component(ok == 1 ? rc2 : 1, X2, ro2, co2, nssr, ssr, nssc, ssc);
+  CMR_CHRMAT* res = NULL;
+  CMR_ERROR rcc = CMR_ERROR_INPUT;
+  if (ok == 1 && !rc1 && !rc2 && X1 && X2)
+    rcc = ksum_compose(cmr, kind, (int) p, X1, X2, nfsr, fsr, nfsc, fsc, nssr, ssr, nssc, ssc, &res);
+  oi(rcc);
+  oi((!rcc && res) ? 1 : 0);
+  if (!rcc && res)
+    o_chr_csr(res);
+  rec_end();
+  if (res)
+    CMRchrmatFree(cmr, &res);
+  if (X1)
+    CMRchrmatFree(cmr, &X1);
+  if (X2)
+    CMRchrmatFree(cmr, &X2);
+  free(ro1); free(co1); free(ro2); free(co2);
+  CMRsepaFree(cmr, &sepa);
+  CMRchrmatFree(cmr, &Mt);
+  CMRchrmatFree(cmr, &M);
+}
+
 /* ---------- dispatch ---------- */
 
 typedef void (*handler)(CMR*);
@@ -930,6 +1163,8 @@ static struct
   {"network", do_network},
   {"repmat", do_repmat},
   {"camion", do_camion},
+  {"kcompose", do_kcompose},
+  {"kdecomp", do_kdecomp},
   {NULL, NULL}
 };
 
